@@ -456,7 +456,7 @@ fn cuts_op(cuts: &[usize]) -> String {
 const LONG_LINE: usize = 5000; // files with a longer line: only partsize ≥ 64 and ≤ 50 cuts per part
 const MAX_CUTS: usize = 4000; // per part op, any file
 const PARTSIZE1_MAX_LEN: usize = 20000; // no `partsize 1` for longer files
-const ALL_CUTS_MAX_LEN: usize = 2000; // thorough: every single-cut partition for files up to this size
+const ALL_CUTS_MAX_LEN: usize = 1500; // thorough: every single-cut partition for files up to this size
 
 fn gen_partitions(rng: &mut Rng, file: &[u8], tier: Tier) -> Vec<String> {
     let len = file.len();
@@ -1170,7 +1170,7 @@ impl Prop for C10 {
     fn case_count(&self, tier: Tier) -> u64 {
         match tier {
             Tier::Quick => 300,
-            Tier::Thorough => 2500,
+            Tier::Thorough => 2000,
         }
     }
     fn fixed_cases(&self, tier: Tier) -> Vec<Case> {
@@ -1212,8 +1212,8 @@ impl Prop for C10 {
             parts.extend((0..=r.bytes.len()).map(|k| format!("part {k}")));
             v.push(Case { name: format!("allcuts{i}"), ops: build_ops(&mut rng, tier, "wf", 1, &items_of(&r), Some(parts), &[]) });
         }
-        // > 1 MiB: the three hand-placed layouts and generated ones (thorough only: 6)
-        for variant in 0..if tier == Tier::Quick { 3 } else { 9 } {
+        // > 1 MiB: the three hand-placed layouts and generated ones (thorough only: 3)
+        for variant in 0..if tier == Tier::Quick { 3 } else { 6 } {
             v.push(big_case(variant));
         }
         v
@@ -1388,7 +1388,9 @@ impl Prop for C10 {
         ops.iter().filter(|o| o.starts_with("part")).count() >= 2
             && out.first().is_some_and(|l| l.starts_with("part 0 ok "))
             && out.iter().any(|l| l.starts_with("sym "))
-            && out.iter().any(|l| l.starts_with("look ") && l.split(' ').nth(2) == Some("sym"))
+            // a successful lookup through either map (a regression that breaks only the self-indexing map must
+            // still reach the judge instead of tripping the "too few non-trivial cases" gate)
+            && out.iter().any(|l| (l.starts_with("look ") || l.starts_with("slook ")) && l.split(' ').nth(2) == Some("sym"))
     }
 }
 
